@@ -16,6 +16,7 @@
 (*     <= that of every feasible lattice neighbour x* + d/den                                    *)
 (*     and of every integer point of the box {0..BoxMax}^n;                                       *)
 (*   - the same for the lower bound x >= epsilon (hals_nnls / fista option epsilon), LowerBoundOK; *)
+(*   - a change of units (design * alpha, data * beta) multiplies the minimiser by beta/alpha;    *)
 (*   - the unconstrained solution (what admm(n_const=None) documents) satisfies A x = c exactly   *)
 (*     and coincides with x* whenever it is non-negative.                                         *)
 EXTENDS Integers, Sequences, FiniteSets, TLC
@@ -131,10 +132,24 @@ LowerBoundOK(pr, ep, eq) ==
                 (\A i \in 1..n : y[i] * eq >= ep * x.den) => ox <= ObjDoc(pr, y, x.den)
         /\ \A y0 \in [1..n -> 1..BoxMax] : ox <= ObjDoc(pr, [i \in 1..n |-> y0[i] * x.den], x.den)
 
+\* Change of units: design times alpha, data times beta  =>  G -> alpha^2 G, b -> alpha beta b, and the penalties keep
+\* their meaning as l1 -> alpha beta l1, l2 -> alpha^2 l2; the minimiser is multiplied by beta/alpha (the KKT conditions
+\* are homogeneous).  Checked for (alpha, beta) = (2, 1) and (1, 2); the binding uses powers of two, which are exact in
+\* binary floating point.
+Rescaled(pr, al, be) == [G |-> [i \in 1..Len(pr.G) |-> [j \in 1..Len(pr.G) |-> al * al * pr.G[i][j]]],
+                         b |-> [i \in 1..Len(pr.b) |-> al * be * pr.b[i]],
+                         p1 |-> al * be * pr.p1, p2 |-> al * al * pr.p2, q |-> pr.q]
+ScaleInvariant(pr) ==
+    \A x \in {Solve(pr)} : \A ab \in {<<2, 1>>, <<1, 2>>} :
+        \A y \in {Solve(Rescaled(pr, ab[1], ab[2]))} :
+            \A i \in 1..Len(pr.G) : y.num[i] * x.den * ab[1] = ab[2] * x.num[i] * y.den
+MagSet == {-40, -20, 0, 30}            \* binary exponents of alpha and beta used by the binding
+
 ProblemOK(pr) ==
     LET n == Len(pr.G) IN
     \A A \in {AMat(pr)} : \A c \in {CVec(pr)} :
     /\ \A e \in EpsSet : LowerBoundOK(pr, e[1], e[2])
+    /\ ScaleInvariant(pr)
     /\ IsSPD(pr.G) /\ IsSPD(A)
     /\ \A K \in {KKTSets(A, c)} :
         /\ Cardinality(K) = 1
